@@ -67,6 +67,29 @@ impl Prop for C03 {
           700000,
         ),
       },
+      Leg {
+        name: "SourceMapSource with inner map, outer map with a sourceRoot, bare or under one wrapper",
+        source: Cases::Generated(
+          Box::new(|| {
+            let cfg = GenCfg::positional();
+            (crate::gen::sms_inner(cfg), 0u8..5u8, 0u8..6u8)
+              .prop_map(move |(spec, style, wrap)| {
+                let leaf = crate::gen::rooted_inner(crate::gen::normalize(spec, cfg), style);
+                let spec = match wrap {
+                  0 | 1 => leaf,
+                  2 => Spec::Cached(Box::new(leaf)),
+                  3 => Spec::Replace { inner: Box::new(leaf), repls: vec![] },
+                  4 => Spec::Boxed(Box::new(leaf)),
+                  _ => Spec::Concat { how: 0, children: vec![leaf] },
+                };
+                TreeCase { spec }
+              })
+              .boxed()
+          }),
+          100_000,
+          1_500_000,
+        ),
+      },
     ]
   }
   fn stages(&self, ctx: &Ctx) -> Vec<Stage> {
